@@ -92,6 +92,12 @@ def base_env(extra=None, path_prefix=None, home=None):
     return env
 
 
+def _limit_memory():
+    import resource
+    lim = 6 << 30
+    resource.setrlimit(resource.RLIMIT_AS, (lim, lim))
+
+
 def _set_winsize(fd, rows, cols):
     fcntl.ioctl(fd, termios.TIOCSWINSZ, struct.pack('HHHH', rows, cols, 0, 0))
 
@@ -225,6 +231,9 @@ def run_delta(args, stdin=b'', env=None, cwd=None, mode='pipe', pty_size=(24, 80
         stdout_arg = slave
     else:
         stdout_arg = subprocess.PIPE
+    if variant not in ('asan', 'tsan') and not wrapper:
+        # a runaway allocation must end in an allocation failure (classified as a crash), not in an exhausted machine
+        popen_kw['preexec_fn'] = _limit_memory
     proc = subprocess.Popen(argv, stdin=(None if stdin_is_none else subprocess.PIPE), stdout=stdout_arg,
                             stderr=subprocess.PIPE, env=e, cwd=cwd, close_fds=True,
                             start_new_session=True, **popen_kw)
